@@ -29,14 +29,15 @@ func init() {
 // ---------------------------------------------------------------- configurations
 
 type chain struct {
-	Name   string                                                   // canonical text
-	Args   []string                                                 // verb chain (after main flags, before file names); "@T" is replaced by the tee/aux file path
-	Flags  []string                                                 // extra main flags
-	Ref    func(recs []string) (stdout string, tee string, ok bool) `json:"-"`
-	NoIn   bool                                                     // chain generates its own input (seqgen): run with -n
-	Aux    string                                                   // contents of an auxiliary virtual file "@L" (join left file)
-	Batch  []int                                                    // explicit batch sizes (else 1..N+1)
-	Seeded bool
+	Name      string                                                   // canonical text
+	Args      []string                                                 // verb chain (after main flags, before file names); "@T" is replaced by the tee/aux file path
+	Flags     []string                                                 // extra main flags
+	Ref       func(recs []string) (stdout string, tee string, ok bool) `json:"-"`
+	NoIn      bool                                                     // chain generates its own input (seqgen): run with -n
+	Aux       string                                                   // contents of an auxiliary virtual file "@L" (join left file)
+	Batch     []int                                                    // explicit batch sizes (else 1..N+1)
+	Seeded    bool
+	TeePrefix bool // tee file: only "is a prefix of the input containing the passed records" is asserted
 }
 
 type input struct {
@@ -247,11 +248,17 @@ func chains(quick bool, n int) []chain {
 	add(chain{Args: []string{"put", `print "p".$i`, "then", "cat", "then", "head", "-n", "2"}})
 	add(chain{Args: []string{"put", "-q", `@s[$g]=$i; end{emit @s,"g"; print "done"}`}})
 	add(chain{Args: []string{"head", "-n", "2", "then", "put", `end{print "end"}`}})
-	add(chain{Args: []string{"put", `tee > "@T", $*`, "then", "head", "-n", "1"}, Ref: func(r []string) (string, string, bool) {
+	// A redirected tee inside put relays downstream-done like any other verb, so after a head
+	// the reader may stop early: the file must hold a prefix of the stream that includes at least
+	// every record passed on (predicate, evaluated in After), not necessarily all N.
+	add(chain{Args: []string{"put", `tee > "@T", $*`, "then", "head", "-n", "1"}, TeePrefix: true, Ref: func(r []string) (string, string, bool) {
+		return join(headN(r, 1)), "\x00absent", true
+	}})
+	add(chain{Args: []string{"put", `tee > "@T", $*`}, Ref: func(r []string) (string, string, bool) {
 		if len(r) == 0 {
 			return "", "\x00absent", true // a redirected tee opens its file on first write
 		}
-		return join(headN(r, 1)), join(r), true
+		return join(r), join(r), true
 	}})
 	// progress reporting and record hashing flags must not change stdout
 	add(chain{Flags: S("--nr-progress-mod 1"), Args: S("cat"), Ref: func(r []string) (string, string, bool) { return join(r), "", true }})
@@ -343,11 +350,18 @@ func (c *config) spec(dir string) vf.ExploreSpec {
 		After: func(o string, r *verifrt.Result) string {
 			vf.TakeStderr()
 			if b, err := os.ReadFile(tee); err == nil {
-				o += "\ntee=" + string(b)
+				if c.Chain.TeePrefix {
+					all := join(c.In.Recs)
+					if !strings.HasPrefix(all, string(b)) || (len(c.In.Recs) > 0 && !strings.HasPrefix(string(b), c.In.Recs[0]+"\n")) {
+						o += "\ntee-not-a-prefix=" + string(b)
+					}
+				} else {
+					o += "\ntee=" + string(b)
+				}
 			}
 			return o
 		},
-		MaxExecs: 60000,
+		MaxExecs: 400000,
 		MaxSteps: 100000,
 	}
 }
@@ -379,7 +393,7 @@ func exploreConfig(w *vf.Worker, c *config, dir string) []string {
 	}
 	if r.Stalled {
 		w.Violation("stall:"+key, "a goroutine ran 60 s without reaching a scheduling point (non-termination) in "+key, rp(r.StalledAt))
-		return nil
+		w.Abandon()
 	}
 	if !r.Exhaustive {
 		w.Inexhaustive(fmt.Sprintf("%s: execution budget %d hit (states=%d)", key, spec.MaxExecs, r.States))
